@@ -118,7 +118,7 @@ def work(job):
         out = ast.unparse(tree)
         compile(out, module, 'exec')
     except Exception:  # noqa
-        return (fn, line, desc, 'invalid', [])
+        return (fn, line, desc, 'invalid', [], mid, kind)
     d = tempfile.mkdtemp(prefix='pkmut-')
     try:
         _copy_sources(d)
@@ -131,7 +131,7 @@ def work(job):
                 hits.append(pid)
             elif rc >= 2:
                 errs.append(pid)
-        return (fn, line, desc, 'killed' if hits else ('error' if errs else 'SURVIVED'), hits or errs)
+        return (fn, line, desc, 'killed' if hits else ('error' if errs else 'SURVIVED'), hits or errs, mid, kind)
     finally:
         shutil.rmtree(d, ignore_errors=True)
 
@@ -151,7 +151,12 @@ def main():
     with ProcessPoolExecutor(max_workers=jobs_n) as ex:
         res = list(ex.map(work, [(module, src, s, pids) for s in ss], chunksize=4))
     by = {}
-    for fn, line, desc, status, hits in res:
+    import json
+    jout = next((a.split('=')[1] for a in sys.argv if a.startswith('--json=')), None)
+    if jout:
+        json.dump([dict(module=module, fn=fn, line=line, desc=desc, status=status, hits=hits, mid=mid, kind=kind,
+                        text=src.splitlines()[line - 1].strip()) for fn, line, desc, status, hits, mid, kind in res], open(jout, 'w'), indent=0)
+    for fn, line, desc, status, hits, mid, kind in res:
         by.setdefault(status, []).append((fn, line, desc, hits))
     print({k: len(v) for k, v in by.items()})
     surv = {}
